@@ -83,7 +83,7 @@ impl Spec {
         Val::L(vec![
             Val::L(self.files.iter().map(|f| Val::L(f.iter().map(|k| Val::I(*k)).collect())).collect()),
             Val::I(self.strategy),
-            Val::I(self.seed as i64),
+            if self.seed == NO_SEED { Val::L(vec![]) } else { Val::I(self.seed as i64) },
             Val::u(self.epoch),
             Val::u(self.threads as usize),
             Val::u(self.buffer),
@@ -113,7 +113,7 @@ impl Spec {
         let s = Spec {
             files,
             strategy: l[1].as_i()?,
-            seed: u64::try_from(l[2].as_i()?).ok()?,
+            seed: if l[2].as_l().map(|x| x.is_empty()).unwrap_or(false) { NO_SEED } else { u64::try_from(l[2].as_i()?).ok()? },
             epoch: l[3].as_usize()?,
             threads: u8::try_from(l[4].as_usize()?).ok()?,
             buffer: l[5].as_usize()?,
@@ -126,7 +126,11 @@ impl Spec {
             limit_type: l[12].as_i()?,
             pipeline: l[13].as_i()?,
         };
-        if s.threads > 6 || s.threads2 > 6 || s.buffer > 16 || s.buffer2 > 16 || s.epoch > 1000 || s.seed > 1 << 40 {
+        if s.threads > 6 || s.threads2 > 6 || s.buffer > 16 || s.buffer2 > 16 || s.epoch > 1000 || eff_seed(s.seed) > 1 << 40 {
+            return None;
+        }
+        // `from_files` refuses shuffle without a seed
+        if s.seed == NO_SEED && s.shuffle {
             return None;
         }
         if !(0..3).contains(&s.strategy) || !(0..5).contains(&s.pipeline) {
@@ -255,7 +259,7 @@ impl C08 {
             paths.push(p.to_string_lossy().to_string());
         }
         let strategy = strategy_of(s.strategy);
-        let seed = s.seed + s.epoch as u64;
+        let seed = eff_seed(s.seed) + s.epoch as u64;
         let gens = paths.iter().map(train_data_generator_from_jsonl).collect::<anyhow::Result<Vec<_>>>().ok()?;
         let gen = MultiTrainDataGenerator::new(gens, strategy, Some(seed)).ok()?;
         let (pipe, _) = train_pipeline(pipeline_cfg(s.pipeline), if s.pipeline == 4 { 40 } else { 512 }).ok()?;
@@ -317,7 +321,7 @@ fn loader_run(
         shuffle: s.shuffle,
         prefetch_factor: s.prefetch,
         sort: s.sort,
-        seed: Some(s.seed),
+        seed: opt_seed(s.seed),
         skip,
         limit,
         distributed: dist,
@@ -430,6 +434,45 @@ fn val_f64(v: &Val) -> Option<f64> {
             }
         }
         _ => None,
+    }
+}
+
+/// `seed = None` of the loader (the Python default): on the wire `()` in the seed slot; the code turns it into 0
+/// (`self.seed.unwrap_or_default() + epoch`), and so does the model (`v_hl ()` = 0)
+const NO_SEED: u64 = u64::MAX;
+fn seed_val(s: u64) -> Val {
+    if s == NO_SEED {
+        Val::L(vec![])
+    } else {
+        hl(s)
+    }
+}
+fn val_seed(v: &Val) -> Option<u64> {
+    if v.as_l()?.is_empty() {
+        Some(NO_SEED)
+    } else {
+        un_hl(v)
+    }
+}
+fn eff_seed(s: u64) -> u64 {
+    if s == NO_SEED {
+        0
+    } else {
+        s
+    }
+}
+fn opt_seed(s: u64) -> Option<u64> {
+    if s == NO_SEED {
+        None
+    } else {
+        Some(s)
+    }
+}
+
+/// the loader lines: `seed = None` in one case in five without shuffle, and now and then with shuffle (`from_files` fails)
+fn no_seed_now_and_then(rng: &mut Rng, seed: &mut u64, shuffle: bool) {
+    if (!shuffle && rng.chance(1, 5)) || (shuffle && rng.chance(1, 40)) {
+        *seed = NO_SEED;
     }
 }
 
@@ -993,7 +1036,7 @@ impl XSpec {
             Val::I(-2),
             files,
             Val::I(self.strategy),
-            hl(self.seed),
+            seed_val(self.seed),
             Val::u(self.epoch),
             pcfg,
             Val::L(vec![Val::b(self.g), tok]),
@@ -1072,7 +1115,7 @@ impl XSpec {
         let s = XSpec {
             files,
             strategy: l[2].as_i()?,
-            seed: un_hl(&l[3])?,
+            seed: val_seed(&l[3])?,
             epoch: l[4].as_usize()?,
             per_source,
             cfgs,
@@ -1093,7 +1136,7 @@ impl XSpec {
             threads2: u8::try_from(l[19].as_usize()?).ok()?,
             buffer2: l[20].as_usize()?,
         };
-        if !(0..3).contains(&s.strategy) || !(0..2).contains(&s.ty) || s.seed > 1 << 40 || s.epoch > 1000 {
+        if !(0..3).contains(&s.strategy) || !(0..2).contains(&s.ty) || eff_seed(s.seed) > 1 << 40 || s.epoch > 1000 {
             return None;
         }
         if s.world == 0 || s.world > 6 || s.rank >= s.world || s.skip > 10_000 || s.ff > 10_000 || s.lim > 10_000 {
@@ -1224,7 +1267,7 @@ fn exact_gen(rng: &mut Rng) -> Val {
         },
         padto: if rng.chance(1, 3) { Some(8) } else { None },
     };
-    XSpec {
+    let mut x = XSpec {
         files,
         strategy,
         seed: if rng.chance(1, 8) { rng.next_u64() >> 24 } else { rng.below(1000) as u64 },
@@ -1247,8 +1290,9 @@ fn exact_gen(rng: &mut Rng) -> Val {
         buffer: rng.below(5),
         threads2: rng.below(5) as u8,
         buffer2: rng.below(5),
-    }
-    .to_val()
+    };
+    no_seed_now_and_then(rng, &mut x.seed, x.shuffle);
+    x.to_val()
 }
 
 type XItem = (String, String, Vec<u32>, Vec<i32>);
@@ -1302,7 +1346,7 @@ impl C08 {
         // cross-check: every delivered item must be one of its entries
         let mut table: Vec<XItem> = vec![];
         if let Ok(Ok((pipe, _))) = &pipe {
-            let seed = s.seed + s.epoch as u64;
+            let seed = eff_seed(s.seed) + s.epoch as u64;
             let mut pos = 0usize;
             // every line of every file, with every position it could have: the order does not matter for a panic
             // that depends on (item, seed); check all (position, line) pairs that can occur is too much: use the
@@ -1339,7 +1383,7 @@ impl C08 {
                     shuffle: s.shuffle,
                     prefetch_factor: s.prefetch,
                     sort: s.sort,
-                    seed: Some(s.seed),
+                    seed: opt_seed(s.seed),
                     skip: s.skip,
                     limit: if s.lim < 0 { None } else { Some(s.lim as usize) },
                     distributed: Some((s.rank, s.world)),
@@ -2194,7 +2238,7 @@ impl BSpec {
             Val::I(-3),
             Val::L(self.files.iter().map(|f| Val::bytes(f)).collect()),
             Val::I(self.strategy),
-            hl(self.seed),
+            seed_val(self.seed),
             Val::u(self.epoch),
             p,
             t,
@@ -2236,7 +2280,7 @@ impl BSpec {
         let s = BSpec {
             files,
             strategy: l[2].as_i()?,
-            seed: un_hl(&l[3])?,
+            seed: val_seed(&l[3])?,
             epoch: l[4].as_usize()?,
             pipe: PipeSpec::from_vals(&l[5], &l[6], &l[7], &l[8])?,
             lim: l[9].as_i()?,
@@ -2254,7 +2298,7 @@ impl BSpec {
             threads2: u8::try_from(l[21].as_usize()?).ok()?,
             buffer2: l[22].as_usize()?,
         };
-        if !(0..3).contains(&s.strategy) || !(0..2).contains(&s.ty) || s.seed > 1 << 40 || s.epoch > 1000 {
+        if !(0..3).contains(&s.strategy) || !(0..2).contains(&s.ty) || eff_seed(s.seed) > 1 << 40 || s.epoch > 1000 {
             return None;
         }
         if s.world == 0 || s.world > 6 || s.rank >= s.world || s.skip > 10_000 || s.ff > 10_000 || s.lim > 10_000 {
@@ -2329,7 +2373,7 @@ fn bytes_gen(rng: &mut Rng) -> Val {
     }
     // the weighted strategy needs non-empty files (constructor error otherwise; now and then kept)
     let files: Vec<Vec<u8>> = lines.iter().map(|f| gen_bfile(rng, f)).collect();
-    BSpec {
+    let mut b = BSpec {
         files,
         strategy,
         seed: if rng.chance(1, 8) { rng.next_u64() >> 24 } else { rng.below(1000) as u64 },
@@ -2349,8 +2393,9 @@ fn bytes_gen(rng: &mut Rng) -> Val {
         buffer: rng.below(5),
         threads2: rng.below(5) as u8,
         buffer2: rng.below(5),
-    }
-    .to_val()
+    };
+    no_seed_now_and_then(rng, &mut b.seed, b.shuffle);
+    b.to_val()
 }
 
 impl C08 {
@@ -2374,7 +2419,7 @@ impl C08 {
         let mut table: Vec<Val> = vec![];
         let mut n_err_lines = 0usize;
         if let Ok(Ok((pipe, _))) = &pipe {
-            let seed = s.seed + s.epoch as u64;
+            let seed = eff_seed(s.seed) + s.epoch as u64;
             let gens = paths.iter().map(train_data_generator_from_jsonl).collect::<anyhow::Result<Vec<_>>>().ok()?;
             if let Ok(gen) = MultiTrainDataGenerator::new(gens, strategy_of(s.strategy), Some(seed)) {
                 for (pos, (data, file_idx)) in gen.enumerate() {
@@ -2409,7 +2454,7 @@ impl C08 {
                     shuffle: s.shuffle,
                     prefetch_factor: s.prefetch,
                     sort: s.sort,
-                    seed: Some(s.seed),
+                    seed: opt_seed(s.seed),
                     skip: s.skip,
                     limit: if s.lim < 0 { None } else { Some(s.lim as usize) },
                     distributed: Some((s.rank, s.world)),
@@ -2919,14 +2964,19 @@ fn gen_chars(rng: &mut Rng, words: &[String]) -> CharItems {
         };
         for i in 0..=cs.len().min(6) as isize {
             if rng.chance(1, 2) {
-                let (c, f) = (x_unit(rng), rng.range(1, 5));
-                push(rng, at(i - 1), c, at(i), f);
+                // several insertions for one context, with different frequencies: their order and weights matter
+                for _ in 0..rng.range(1, 3) {
+                    let (c, f) = (x_unit(rng), rng.range(1, 9));
+                    push(rng, at(i - 1), c, at(i), f);
+                }
             }
             if (i as usize) < cs.len() && rng.chance(1, 2) {
-                let f = rng.range(1, 5);
+                let f = rng.range(1, 9);
                 push(rng, at(i - 1), at(i), at(i + 1), f);
-                let (c, f) = (x_unit(rng), rng.range(1, 5));
-                push(rng, at(i - 1), c, at(i + 1), f);
+                for _ in 0..rng.range(1, 3) {
+                    let (c, f) = (x_unit(rng), rng.range(1, 9));
+                    push(rng, at(i - 1), c, at(i + 1), f);
+                }
             }
         }
     }
@@ -2939,16 +2989,18 @@ fn gen_chars(rng: &mut Rng, words: &[String]) -> CharItems {
     }
     match rng.below(24) {
         0 => items.push((if rng.chance(1, 2) { "a b".to_string() } else { "a b c d".to_string() }, rng.range(1, 5))),
-        1 | 2 => {
+        1 | 2 | 3 | 4 => {
             // the relative-frequency filter: one heavy item puts frequency k at the threshold k / total < 1e-4
             let small: usize = items.iter().map(|x| x.1).sum();
             let k = rng.range(1, 5);
-            let heavy = (10_000 * k) as isize + rng.below(5) as isize - 2 - small as isize;
+            // ... or well inside the band between 1e-4 and 1e-3
+            let t = if rng.chance(1, 2) { 10_000 } else { 3_000 };
+            let heavy = (t * k) as isize + rng.below(5) as isize - 2 - small as isize;
             if heavy > 0 {
                 items.push(("<bow> x <eow>".into(), heavy as usize));
             }
         }
-        3 => {
+        5 => {
             if let Some(x) = items.first_mut() {
                 x.1 = 0;
             }
@@ -2992,11 +3044,12 @@ fn gen_missp(rng: &mut Rng, words: &[String], safe: bool) -> Missp {
     };
     for w in words.iter().take(8) {
         for (w, parts) in text_utils::text::split_words(w) {
-            if rng.chance(1, 2) {
+            let parts = parts.unwrap_or_default();
+            if rng.chance(1, if parts.len() > 1 { 5 } else { 2 }) {
                 add(rng, w.to_string());
             }
-            for (p, _) in parts.unwrap_or_default() {
-                if rng.chance(1, 2) {
+            for (p, _) in parts {
+                if rng.chance(3, 4) {
                     add(rng, p.to_string());
                 }
             }
@@ -3068,7 +3121,9 @@ fn gen_chat_stage(rng: &mut Rng, target: bool) -> StageSpec {
     let mut roles: Vec<(String, String)> = vec![];
     for r in ["user", "assistant", "system", "bot", ""] {
         if rng.chance(2, 3) {
-            roles.push((r.to_string(), rng.pick(ROLE_TEMPLATES).to_string()));
+            // mostly a template with one {text}
+            let t = if rng.chance(1, 2) { *rng.pick(&ROLE_TEMPLATES[..4]) } else { *rng.pick(ROLE_TEMPLATES) };
+            roles.push((r.to_string(), t.to_string()));
         }
     }
     let start = match rng.below(3) {
@@ -3084,28 +3139,36 @@ fn gen_chat_stage(rng: &mut Rng, target: bool) -> StageSpec {
     StageSpec::Chat(target, start, roles, end)
 }
 
-/// the text of a chat: a json array of messages, in several writers' styles and with the ways serde refuses one
-fn gen_chat_text(rng: &mut Rng) -> String {
+/// the text of a chat: a json array of messages, in several writers' styles and with the ways serde refuses one;
+/// `roles`: the roles of the template (mostly used, so that most chats format)
+fn gen_chat_text(rng: &mut Rng, roles: &[String]) -> String {
     let q = |s: &str| serde_json::to_string(s).unwrap();
-    let n = rng.below(4);
+    let n = match rng.below(8) {
+        0 => 0,
+        1 | 2 | 3 => 1,
+        4 | 5 => 2,
+        _ => 3,
+    };
     let mut msgs: Vec<String> = vec![];
     for k in 0..n {
-        let role = *rng.pick(&["user", "user", "assistant", "system", "bot", "", "nobody"]);
+        let role: String = if !roles.is_empty() && !rng.chance(1, 12) { rng.pick(roles).clone() } else { rng.pick(&["user", "nobody", ""]).to_string() };
+        let role = role.as_str();
         let text = match rng.below(6) {
             0 => "{text}".to_string(),
             1 => "a {text} b".to_string(),
             _ => gen_text(rng, 6),
         };
         let last = k + 1 == n;
-        let partial = if last { rng.chance(1, 3) } else { rng.chance(1, 12) };
-        let m = match rng.below(14) {
-            0 | 1 | 2 => format!("{{\"role\": {}, \"text\": {}}}", q(role), q(&text)),
-            3 | 4 | 5 => format!("{{\"text\":{},\"role\":{},\"partial\":{}}}", q(&text), q(role), partial),
-            6 => format!("{{\"text\": {}, \"id\": [1, {{\"text\": 3}}, null], \"role\": {}, \"partial\": {}, \"x\": \"y\"}}", q(&text), q(role), partial),
-            7 => format!("[{}, {}]", q(&text), q(role)),
-            8 => format!(" [ {} , {} , {} ] ", q(&text), q(role), partial),
-            9 => format!("{{\"te\\u0078t\": {}, \"role\": {}}}", q(&text), q(role)),
-            10 => format!("{{\"role\": {}, \"text\": {}, \"partial\": {}}}", py_string(role), py_string(&text), partial),
+        let partial = if last { rng.chance(1, 2) } else { rng.chance(1, 8) };
+        let m = match rng.below(16) {
+            0 | 1 | 2 if !partial => format!("{{\"role\": {}, \"text\": {}}}", q(role), q(&text)),
+            0 | 1 | 2 | 3 | 4 | 5 | 6 => format!("{{\"text\":{},\"role\":{},\"partial\":{}}}", q(&text), q(role), partial),
+            7 => format!("{{\"text\": {}, \"id\": [1, {{\"text\": 3}}, null], \"role\": {}, \"partial\": {}, \"x\": \"y\"}}", q(&text), q(role), partial),
+            8 if !partial => format!("[{}, {}]", q(&text), q(role)),
+            8 | 9 => format!(" [ {} , {} , {} ] ", q(&text), q(role), partial),
+            10 if !partial => format!("{{\"te\\u0078t\": {}, \"role\": {}}}", q(&text), q(role)),
+            10 | 11 | 12 | 13 => format!("{{\"role\": {}, \"text\": {}, \"partial\": {}}}", py_string(role), py_string(&text), partial),
+            14 => format!("{{\"partial\": {}, \"role\": {}, \"ignored\": {{\"role\": 1, \"a\": [true, false, 1.5e3, \"\\n\"]}}, \"text\": {}}}", partial, q(role), q(&text)),
             _ => rng
                 .pick(&[
                     "{\"text\": \"a\"}",
@@ -3129,15 +3192,26 @@ fn gen_chat_text(rng: &mut Rng) -> String {
         };
         msgs.push(m);
     }
-    match rng.below(16) {
+    match rng.below(24) {
         0 => format!("[{}] x", msgs.join(",")),
         1 => format!("[{},]", msgs.join(",")),
         2 => format!("{{\"messages\": [{}]}}", msgs.join(",")),
         3 => "".to_string(),
         4 => gen_text(rng, 5),
-        5 => format!(" \n[ {} ]\t", msgs.join(" ,\n")),
+        5 | 6 => format!(" \n[ {} ]\t", msgs.join(" ,\n")),
         _ => format!("[{}]", msgs.join(", ")),
     }
+}
+
+fn chat_roles(stages: &[StageSpec]) -> Vec<String> {
+    stages
+        .iter()
+        .filter_map(|s| match s {
+            StageSpec::Chat(_, _, roles, _) => Some(roles.iter().map(|r| r.0.clone()).collect::<Vec<String>>()),
+            _ => None,
+        })
+        .next()
+        .unwrap_or_default()
 }
 
 fn gen_mask(rng: &mut Rng, safe: bool) -> MaskSpec {
@@ -3184,8 +3258,8 @@ fn mask_gen(rng: &mut Rng) -> Val {
     }
     let n = match rng.below(10) {
         0 => rng.below(4),
-        1 | 2 => rng.range(4, 12),
-        3 => 200,
+        1..=4 => rng.range(4, 12),
+        5 => 200,
         _ => rng.range(12, 80),
     };
     let ids: Vec<Val> = (0..n).map(|i| Val::u(1000 + i)).collect();
@@ -3308,13 +3382,17 @@ fn add_stages(rng: &mut Rng, spec: &mut PipeSpec, input: &mut String, target: &s
     match kind {
         0..=5 => {
             let tg = rng.chance(1, 5);
+            // words with several regex parts (the misspellings of a part are spliced into the word)
+            if !tg && rng.chance(1, 3) {
+                input.push_str(*rng.pick(&[" ab.c", " xy-ab.c", " a.b.c", " ab-ab"]));
+            }
             let st = gen_spell_stage(rng, tg, if tg { target } else { input.as_str() }, safe);
             stages.push(st);
         }
         6 | 7 => {
             stages.push(gen_chat_stage(rng, false));
             if !rng.chance(1, 10) {
-                *input = gen_chat_text(rng);
+                *input = gen_chat_text(rng, &chat_roles(&stages));
             }
         }
         8 => {
@@ -3475,7 +3553,7 @@ fn xbytes_gen(rng: &mut Rng) -> Val {
                     }
                     let (mut i, t) = gen_item_texts(rng, &pipe.task);
                     if chat_in && !rng.chance(1, 10) {
-                        i = gen_chat_text(rng);
+                        i = gen_chat_text(rng, &chat_roles(&stages));
                     } else if json_in && !rng.chance(1, 6) {
                         i = serde_json::to_string(&i).unwrap();
                     }
@@ -3490,7 +3568,7 @@ fn xbytes_gen(rng: &mut Rng) -> Val {
     let skip = if rng.chance(1, 2) { 0 } else { rng.range(0, total / 2 + 1) };
     let ff = if rng.chance(1, 3) { 0 } else { rng.range(0, total / 2 + 1) };
     let files: Vec<Vec<u8>> = lines.iter().map(|f| gen_bfile(rng, f)).collect();
-    let b = BSpec {
+    let mut b = BSpec {
         files,
         strategy,
         seed: if rng.chance(1, 8) { rng.next_u64() >> 24 } else { rng.below(1000) as u64 },
@@ -3511,6 +3589,7 @@ fn xbytes_gen(rng: &mut Rng) -> Val {
         threads2: rng.below(5) as u8,
         buffer2: rng.below(5),
     };
+    no_seed_now_and_then(rng, &mut b.seed, b.shuffle);
     let x = XPipe { pipe: b.pipe.clone(), stages, qstages };
     let mut v = match b.to_val() {
         Val::L(l) => l,
@@ -3554,7 +3633,7 @@ impl C08 {
         let mut table: Vec<Val> = vec![];
         let mut n_err_lines = 0usize;
         if let Ok(Ok((pipe, _))) = &pipe {
-            let seed = s.seed + s.epoch as u64;
+            let seed = eff_seed(s.seed) + s.epoch as u64;
             let gens = paths.iter().map(train_data_generator_from_jsonl).collect::<anyhow::Result<Vec<_>>>().ok()?;
             if let Ok(gen) = MultiTrainDataGenerator::new(gens, strategy_of(s.strategy), Some(seed)) {
                 for (pos, (data, file_idx)) in gen.enumerate() {
@@ -3589,7 +3668,7 @@ impl C08 {
                     shuffle: s.shuffle,
                     prefetch_factor: s.prefetch,
                     sort: s.sort,
-                    seed: Some(s.seed),
+                    seed: opt_seed(s.seed),
                     skip: s.skip,
                     limit: if s.lim < 0 { None } else { Some(s.lim as usize) },
                     distributed: Some((s.rank, s.world)),
@@ -3682,7 +3761,8 @@ impl Prop for C08 {
         let spec = Spec {
             files,
             strategy,
-            seed: rng.below(1000) as u64,
+            // the loader's default seed = None now and then (only without shuffle: the constructor refuses that)
+            seed: if !shuffle && rng.chance(1, 4) { NO_SEED } else { rng.below(1000) as u64 },
             epoch: rng.below(3),
             threads: rng.below(5) as u8,
             buffer: rng.below(5),
